@@ -60,6 +60,36 @@ def make_value(kind, k):
         return b"b%d" % k
     if kind == "nested":
         return {"#n": [Box(k), (k, {"#d": None})]}
+    if kind == "biglist":
+        return list(range(100000)) + [k]
+    if kind == "bigstr":
+        return ("s%d " % k) * 150000                     # about 1 MB
+    if kind == "bigbytes":
+        return (b"b%d-" % k) * 250000
+    if kind == "bigdict":
+        return {"#%d" % j: (j, "v%d" % (j % 7)) for j in range(30000 + k)}
+    if kind == "deep":
+        x = [k]
+        for _ in range(300):
+            x = [x]
+        return x
+    if kind == "shared":
+        key = "key%d" % k
+        d = {"alpha": key, "beta": [key, key], "gamma": (key,)}
+        return [d, dict(d), d, {"alpha": d, "beta": key}, [key, "alpha", "beta"]]
+    if kind == "bigunp":
+        return list(range(100000)) + [k, (x for x in [k])]       # fails after ~300 KB of picklable prefix
+    if kind == "bigunp_dict":
+        d = {"#%d" % j: [j, "v"] for j in range(40000)}
+        d["#last%d" % k] = threading.Lock()
+        return d
+    if kind == "bigunp_str":
+        return ["x" * 70000, "y" * 70000, "z%d" % k * 70000, BadReduce(k, ValueError)]
+    if kind == "toodeep":
+        x = [k]
+        for _ in range(100000):
+            x = [x]
+        return x
     if kind == "lambda":
         return lambda: k
     if kind == "gen":
@@ -427,12 +457,20 @@ def _impl(c, tmp):
         else:
             spath = os.path.join(root, ent["path"])
         argv = ["saveframe", "--filename=" + out]
+        style = c.get("argv_style") or ["eq", "eq", "eq"]
+
+        def opt(name, value, st):
+            value = "%s" % (value,)
+            if st == "sep" and not value.startswith("-"):
+                argv.extend([name, value])
+            else:
+                argv.append(name + "=" + value)
         if eff["frames"] is not None:
-            argv.append("--frames=%s" % (eff["frames"],))
+            opt("--frames", eff["frames"], style[0])
         if eff["variables"] is not None:
-            argv.append("--variables=" + eff["variables"])
+            opt("--variables", eff["variables"], style[1])
         if eff["exclude"] is not None:
-            argv.append("--exclude_variables=" + eff["exclude"])
+            opt("--exclude_variables", eff["exclude"], style[2])
         argv.append(spath)
         real_save = SF._save_frames_and_exception_info_to_file
 
